@@ -100,7 +100,7 @@ func runC14(r *core.Run) {
 					for _, vs := range []string{"id", "edge"} {
 						// masks: none; on contiguous tensors every mask for n<=4, two patterns otherwise
 						masks := []int{-1}
-						if lay == "C" && f.mask && n >= 1 && vs == "id" {
+						if lay == "C" && n >= 1 && vs == "id" {
 							if n <= 4 {
 								for m := 0; m < 1<<uint(n); m++ {
 									masks = append(masks, m)
